@@ -1,6 +1,12 @@
 #!/bin/bash
 # sweep.sh: every seeded change against its own property's check. Output: one line per seed.
+# (seeds whose meta.json says "retired" are no longer breaking changes — a later /repo repair made the
+# library immune to them — and are skipped)
 cd "$(dirname "$0")/.."
 [ -n "$VP_RUN_REPO" ] && export VERIF_REPO=$VP_RUN_REPO
 ./setup.sh >/dev/null 2>&1
-for d in seeded/*/; do s=$(basename $d); p=${s:0:3}; timeout 1200 tools/seedrun.sh $s $p 2>&1 | grep "^\[" ; done
+for d in seeded/*/; do
+  s=$(basename $d); p=${s:0:3}
+  if grep -q '"retired"' $d/meta.json 2>/dev/null; then echo "[$s] retired (skipped)"; continue; fi
+  timeout 1200 tools/seedrun.sh $s $p 2>&1 | grep "^\["
+done
